@@ -18,7 +18,7 @@ PROPS["C16"] = {
     "assumptions": ["caller passes totalFreq = sum of freqs (true at all three call sites)", "Go int is 64-bit (C16_no_overflow bounds intermediates below 2^63 for totals < 2^31)"],
 }
 
-HOOK_COMMITS = []
+HOOK_COMMITS = ["a321cbc"]
 
 # properties not (yet) claimed: reason shown in MANIFEST.not_applicable
 NOT_APPLICABLE = {}
